@@ -736,9 +736,12 @@ class SqlalchemyRender:
 
             return sql, params
 
-        except (SQLAlchemyError, NotImplementedError) as e:
+        except Exception as e:
             if not with_failback:
-                raise e
+                if isinstance(e, (SQLAlchemyError, NotImplementedError)):
+                    raise e
+                # shapes the renderer does not handle (unknown cast type, tuple operand, ...) fail with arbitrary errors
+                raise NotImplementedError(f'Unable to render query: {type(e).__name__}: {e}') from e
 
             sql_query = str(ast_query)
             if self.dialect.name == 'postgresql':
